@@ -48,7 +48,8 @@ class Gateway:
         else:
             raise GatewayException('Gateway must specify IPv4 or IPv6 subnet, gateway address and an optional MAC')
         if lab.mac is not None:
-            self.lab.mac = lab.mac
+            # through the checking setter, like the addresses above
+            self.lab = Labels.update(self.lab, mac=lab.mac)
 
     @property
     def gateway(self) -> str:
